@@ -19,7 +19,8 @@ META = {
 
 def coalition_profile(rnd, maxn, integer):
     if rnd.random() < 0.55:
-        return gen.hostile(rnd, "coalition", n=rnd.randint(2, maxn), integer=True)
+        # one case in five at an electorate of 10^9..10^18 voters (exact-quota coalitions, an outsider one vote short)
+        return gen.hostile(rnd, "coalition", n=rnd.randint(2, maxn), integer=True, big=rnd.choice(gen.BIG_W) if rnd.random() < 0.2 else 1)
     spec, m, _ = gen.any_ranked(rnd, integer=integer, maxn=maxn)
     return spec, m
 
@@ -104,7 +105,7 @@ def run(ctx):
         integer = ctx.rnd.random() < 0.6
         spec, m = coalition_profile(ctx.rnd, maxn, integer)
         n = len(spec["cands"])
-        allint = all(canon.pf(b["w"]).denominator == 1 for b in spec["ballots"])
+        allint = all(canon.pf(b["w"]).denominator == 1 and canon.pf(b["w"]) <= 10 ** 5 for b in spec["ballots"])  # random transfer works voter by voter
         if ctx.rnd.random() < 0.15:
             cfg = {"rule": "IRV", "quota": "droop", "tiebreak": "random"}
         else:
